@@ -66,7 +66,8 @@ def cases(draw, name, tier):
     assigns = []
     for _ in range(6):
         assigns.append({
-            "src": [draw(st.sampled_from(SRC_FL if name != "iter_sentinel" else FN_FL)) for _ in range(nsrc)],
+            "src": [draw(st.sampled_from(SRC_FL if name != "iter_sentinel" else FN_FL + ["iterobj", "aiterobj"]))
+                    for _ in range(nsrc)],
             "fn": [draw(st.sampled_from(FN_FL)) for _ in range(nfn)],
         })
     case["assigns"] = assigns
@@ -123,7 +124,10 @@ def check_one(c, base_view, base_calls=None):
     tool = c["tool"]
     # type oracle: what does the library callable return before awaiting / iterating?
     b = build(c, "a")
-    made = b.tool.make_a(b.S, b.F, b.P, b.V)
+    try:
+        made = b.tool.make_a(b.S, b.F, b.P, b.V)
+    except Exception as exc:  # valid arguments: creating the iterator / the awaitable does not fail
+        raise Violation(f"C03/{tool}/creating-the-operation-raised", f"{exc!r}", case=c) from None
     ok = is_async_shape(made)
     if inspect.iscoroutine(made):
         made.close()
